@@ -404,26 +404,30 @@ fn eval_poly_of<E: Engine, F: Fn() -> E>(_mk: &F, e: &mut [u16; 65536], t: usize
 fn slot_pos(sb: usize, s: usize) -> (usize, usize) { let b = s / 32; let l = s % 32; if b < sb / 64 { (64 * b + l, 64 * b + 32 + l) } else { let t = sb % 64; (64 * b + l, 64 * b + t / 2 + l) } }
 
 fn sizes(max: usize) -> bool {
-    let mut rng = Rng::new(seed()); let mut n = 0u64;
+    let mut rng = Rng::new(seed()); let mut n = 0u64; let mut bad: Option<String> = None;
     for sb in (2..=max).step_by(2) { for (c, k, r) in [(Codec::High, 5usize, 2usize), (Codec::Low, 2, 5), (Codec::Default, 3, 3)] {
         let data = rand_data(&mut rng, k, sb);
-        let rec = enc_with(c, NoSimd::new(), k, r, &data).unwrap();
-        if rec.len() != r || rec.iter().any(|x| x.len() != sb) { println!("FAIL sizes recovery length sb={} {:?}", sb, c); return false; }
-        // slot independence with the documented placement: slot s of the outputs = the 2-byte code of slot s of the inputs
-        for s in 0..sb / 2 {
-            let (lo, hi) = slot_pos(sb, s);
-            let small: Vec<Vec<u8>> = data.iter().map(|d| vec![d[lo], d[hi]]).collect();
-            let rs = enc_with(c, NoSimd::new(), k, r, &small).unwrap();
-            for j in 0..r { if rec[j][lo] != rs[j][0] || rec[j][hi] != rs[j][1] { println!("FAIL sizes slot sb={} {:?} slot={} recovery={}", sb, c, s, j); return false; } }
-            n += 1;
-        }
-        // restored shards have the size and the bytes
-        let o: Vec<(usize, Vec<u8>)> = (r.min(k)..k).map(|i| (i, data[i].clone())).collect();
-        let rc: Vec<(usize, Vec<u8>)> = (0..r.min(k)).map(|j| (j, rec[j].clone())).collect();
-        let got = dec_with(c, NoSimd::new(), k, r, sb, &o, &rc).unwrap();
-        if got.iter().any(|(i, d)| d.len() != sb || *d != data[*i]) || got.len() != r.min(k) { println!("FAIL sizes restore sb={} {:?}", sb, c); return false; }
+        // every engine ("all rates and engines"): the any-size code on that engine against the 2-byte code on the portable one
+        each_engine!(name, mk, { if bad.is_none() {
+            let rec = enc_with(c, mk(), k, r, &data).unwrap();
+            if rec.len() != r || rec.iter().any(|x| x.len() != sb) { bad = Some(format!("recovery length sb={} {:?} engine {}", sb, c, name)); }
+            // slot independence with the documented placement: slot s of the outputs = the 2-byte code of slot s of the inputs
+            for s in 0..sb / 2 { if bad.is_none() {
+                let (lo, hi) = slot_pos(sb, s);
+                let small: Vec<Vec<u8>> = data.iter().map(|d| vec![d[lo], d[hi]]).collect();
+                let rs = enc_with(c, NoSimd::new(), k, r, &small).unwrap();
+                for j in 0..r { if rec[j][lo] != rs[j][0] || rec[j][hi] != rs[j][1] { bad = Some(format!("slot sb={} {:?} engine {} slot={} recovery={}", sb, c, name, s, j)); } }
+                n += 1;
+            } }
+            // restored shards have the size and the bytes
+            let o: Vec<(usize, Vec<u8>)> = (r.min(k)..k).map(|i| (i, data[i].clone())).collect();
+            let rc: Vec<(usize, Vec<u8>)> = (0..r.min(k)).map(|j| (j, rec[j].clone())).collect();
+            let got = dec_with(c, mk(), k, r, sb, &o, &rc).unwrap();
+            if bad.is_none() && (got.iter().any(|(i, d)| d.len() != sb || *d != data[*i]) || got.len() != r.min(k)) { bad = Some(format!("restore sb={} {:?} engine {}", sb, c, name)); }
+        } });
+        if let Some(m) = &bad { println!("FAIL sizes {}", m); return false; }
     } }
-    println!("OK sizes {} slots over every even size 2..={} (bounded)", n, max);
+    println!("OK sizes {} slots over every even size 2..={}, every engine (bounded)", n, max);
     true
 }
 
